@@ -687,6 +687,9 @@ func registerFS(ex *Executor) {
 	I["@verifMaybeUnencodable"] = func(ex *Executor, st *State, cc *CallCtx, args []Val) (Val, ctl) {
 		return IfaceV{}, cNext
 	}
+	I["@verifPlantPersistentWriteFault"] = func(ex *Executor, st *State, cc *CallCtx, args []Val) (Val, ctl) {
+		return args[1], cNext
+	}
 	I["@verifTempDir"] = func(ex *Executor, st *State, cc *CallCtx, args []Val) (Val, ctl) {
 		return smt.StrC("/logs"), cNext
 	}
